@@ -11,6 +11,9 @@ use std::time::Duration;
 
 pub struct BfsOrder;
 impl SubCheck for BfsOrder {
+    fn fuzzable(&self) -> bool {
+        true
+    }
     type Case = GCase;
     fn name(&self) -> &'static str {
         "bfs_order_and_shortest_witness"
